@@ -15,7 +15,7 @@ def sh(cmd, **kw):
 
 bad = 0
 for d in (sys.argv[1:] or [os.path.join(V, "refactors", "R1"), os.path.join(V, "refactors", "R2")]):
-    for patch in sorted(glob.glob(os.path.join(d, "*.diff"))):
+    for patch in sorted(glob.glob(os.path.join(os.path.abspath(d), "*.diff"))):
         if sh("git -C /repo status --porcelain --untracked-files=no").stdout.strip():
             print("refusing: /repo dirty"); sys.exit(2)
         if sh("git -C /repo apply --check %s" % patch).returncode:
